@@ -38,6 +38,7 @@ type WScript struct {
 	Store string   `json:"store"` // simkv | pebble
 	Keys  []string `json:"keys"`  // hex, 32 bytes each
 	Ops   []WOp    `json:"ops"`
+	Huge  bool     `json:"huge,omitempty"` // tens of thousands of keys with unique values: per-operation reference counting is skipped
 }
 
 func (s *WScript) Len() int { return len(s.Ops) }
